@@ -69,6 +69,12 @@ CHECKS.update({
          "Cases that leave the stated restriction are skipped and counted; the restriction for (ii) is decided on eval_f64's own subexpression values.", "4/C15"),
 })
 
+CHECKS.update({
+ "C10": ("table-driven: every (evaluator, spelling) x dense argument grid (exhaustive) + random log-uniform arguments (proptest); oracles: host libm, exact closed forms, tgamma, defining identity of Lambert W",
+         "Exploration: the whole finite vocabulary of functions, aliases, postfix operators, brackets and constants is crossed with a fixed argument grid per evaluator and then sampled with random decimal-string arguments; exact functions compared exactly, the others at the 1e-9 the property states, eval_i64 real-valued functions within 1.",
+         "Trusts glibc's libm (through Rust std and tgamma via FFI) as the mathematical reference; points where the function is undefined, within 0.01 of a gamma pole, or not representable in the evaluator's type are skipped and counted.", "4/C10"),
+})
+
 NOT_YET = {
 }
 
